@@ -1,5 +1,110 @@
 import WuffsVerif.Common.Line
-/-! Line driver for C16 — stub, not built yet. -/
-open WuffsVerif.Line
+import WuffsVerif.Model.Flate.Spec
+import WuffsVerif.Model.Flate.Cut
+import WuffsVerif.Model.Flate.ZlibCut
+/-! Line driver for C16 (lib/flatecut, lib/zlibcut) and the shared DEFLATE spec decoder.
+  cut  <limit> <hex>              -> ok <eLen> <dLen> <hex of the whole modified buffer> | err <class>
+  cutw <limit> <hex>              -> ok <eLen> <dLen> <hex buffer> <hex written to w>   | err <class>
+  zcut <limit> <hex>              -> ok <eLen> <dLen> <hex buffer> <hex written to w>   | err <class>
+  inflate <cap|-> <dicthex> <hex> -> done <consumed> <outhex> | truncated <outhex> | corrupt <outhex> | capped <n>
+  zinflate <dicthex> <hex>        -> ok <consumed> <outhex> | err
+  adler <hex>                     -> <decimal>
+  construct <lengths>             -> ok <endCodeBits> <endCodeNBits> <counts> <symbols[:k]> <lookUpTable> | err <class>
+  slowdecode|decode <lengths> <hex> <index> <bits> <nBits> -> <sym> <index> <bits> <nBits> | err <class>
+  take <hex> <index> <bits> <nBits> <n>                   -> <ret> <index> <bits> <nBits>
+-/
+open WuffsVerif WuffsVerif.Line WuffsVerif.Flate
 
-def main : IO Unit := runPure (fun _ => "bad-op")
+def hexA (a : Array UInt8) : String := toHex a.toList
+
+def parseHexA (s : String) : Option (Array UInt8) := (fromHex s).map List.toArray
+
+def showCut (withW : Bool) : Except Cut.Err Cut.CutResult → String
+  | .error e => "err " ++ e.word
+  | .ok r => "ok " ++ toString r.encodedLen ++ " " ++ toString r.decodedLen ++ " " ++ hexA r.encoded ++
+      (if withW then " " ++ hexA r.written else "")
+
+def mkBitstream (bytes : Array UInt8) (index bits nBits : String) : Option Cut.Bitstream := do
+  let i ← index.toNat?
+  let b ← bits.toNat?
+  let n ← nBits.toNat?
+  pure { bytes := bytes, index := i, bits := UInt64.ofNat b, nBits := n }
+
+def showDec : Except Cut.Err (Int × Cut.Bitstream) → String
+  | .error e => "err " ++ e.word
+  | .ok (s, b) => toString s ++ " " ++ toString b.index ++ " " ++ toString b.bits.toNat ++ " " ++ toString b.nBits
+
+def c16Step (l : List String) : String :=
+  match l with
+  | [op, limit, hex] =>
+    match limit.toInt?, parseHexA hex with
+    | some lim, some enc =>
+      match op with
+      | "cut" => showCut false (Cut.Cut false enc lim)
+      | "cutw" => showCut true (Cut.Cut true enc lim)
+      | "zcut" => showCut true (ZlibCut.Cut enc lim)
+      | _ => "bad-op"
+    | _, _ =>
+      if op == "zinflate" then
+        match parseHexA limit, parseHexA hex with
+        | some dict, some s =>
+          match Spec.zlibDecode dict s with
+          | some (out, n) => "ok " ++ toString n ++ " " ++ hexA out
+          | none => "err"
+        | _, _ => "bad-op"
+      else "bad-op"
+  | ["inflate", cap, dict, hex] =>
+    match parseHexA dict, parseHexA hex with
+    | some d, some s =>
+      let c := if cap == "-" then some Spec.noCap else cap.toNat?
+      match c with
+      | none => "bad-op"
+      | some c =>
+        let r := Spec.inflateRaw d s c
+        if r.out.size ≥ c then "capped " ++ hexA (r.out.extract 0 c) else
+        match r.status with
+        | .done => "done " ++ toString ((r.pos + 7) / 8) ++ " " ++ hexA r.out
+        | .truncated => "truncated " ++ hexA r.out
+        | .corrupt => "corrupt " ++ hexA r.out
+        | .capped => "capped " ++ hexA (r.out.extract 0 c)
+    | _, _ => "bad-op"
+  | ["adler", hex] =>
+    match parseHexA hex with
+    | some s => toString (Spec.adler32 s)
+    | none => "bad-op"
+  | ["construct", lens] =>
+    match parseNatList lens with
+    | none => "bad-op"
+    | some ls =>
+      match Cut.Huffman.zero.construct ls.toArray with
+      | .error e => "err " ++ e.word
+      | .ok (h, ecb, ecn) =>
+        let k := (ls.filter (· ≠ 0)).length
+        "ok " ++ toString ecb ++ " " ++ toString ecn ++ " " ++ showNatList h.counts.toList ++ " " ++
+          showIntList (h.symbols.toList.take k) ++ " " ++ showNatList h.lookUpTable.toList
+  | [op, lens, hex, index, bits, nBits] =>
+    match parseNatList lens, parseHexA hex with
+    | some ls, some bytes =>
+      match mkBitstream bytes index bits nBits with
+      | none => "bad-op"
+      | some b =>
+        if op == "take" then "bad-op" else
+        match Cut.Huffman.zero.construct ls.toArray with
+        | .error e => "err " ++ e.word
+        | .ok (h, _, _) =>
+          if op == "slowdecode" then showDec (h.slowDecode b)
+          else if op == "decode" then showDec (h.decode b)
+          else "bad-op"
+    | _, _ =>
+      -- take <hex> <index> <bits> <nBits> <n>
+      if op == "take" then
+        match parseHexA lens, nBits.toNat? with
+        | some bytes, some n =>
+          match mkBitstream bytes hex index bits with
+          | some b => let (r, b) := b.take n; showDec (.ok (r, b))
+          | none => "bad-op"
+        | _, _ => "bad-op"
+      else "bad-op"
+  | _ => "bad-op"
+
+def main : IO Unit := runPure c16Step
